@@ -115,7 +115,7 @@ def run(ctx):
             distinct.add(content)
 
     # -- end to end: real canvas runs, SIGKILLed right after write number k, then canvas -r
-    nruns = ctx.n(6, 120)
+    nruns = ctx.n(8, 120)
     e2e = 0
     for t in range(nruns):
         root = os.path.join(work, "root%d" % t)
@@ -157,10 +157,14 @@ def run(ctx):
         if not builds:
             continue
         bdir = os.path.join(root, builds[0])
-        try:
-            os.unlink(os.path.join(root, ".running"))  # the crash left the lock behind; same owner may re-acquire anyway
-        except OSError:
-            pass
+        # the crash left the lock behind: every other run resumes with the stale lock in place (the same
+        # invocation re-acquires it), the others after it was cleared as robsd-kill / a reboot would
+        stale = (t % 2 == 0)
+        if not stale:
+            try:
+                os.unlink(os.path.join(root, ".running"))
+            except OSError:
+                pass
         csv_before = open(os.path.join(bdir, "step.csv"), "rb").read() if os.path.exists(os.path.join(bdir, "step.csv")) else b""
         first = [l.split()[1] for l in open(probe_log).read().split("\n") if l.startswith("start ")] if os.path.exists(probe_log) else []
         killed = os.path.exists(probe_log) and "killed after write" in open(probe_log).read()
@@ -202,6 +206,7 @@ def run(ctx):
         wants.append(None)
         infos.append(dict(kind="e2e", second=second, rc2=rc2, names=names))
         kinds["e2e-kill@%s" % ("skipphase" if kill_at <= len(skip) else "steps")] = kinds.get("e2e-kill@%s" % ("skipphase" if kill_at <= len(skip) else "steps"), 0) + 1
+        kinds["e2e-resume-%s-lock" % ("stale" if stale else "no")] = kinds.get("e2e-resume-%s-lock" % ("stale" if stale else "no"), 0) + 1
     ans = ctx.model(reqs)
     for q, a, w, info in zip(reqs, ans, wants, infos):
         if w is None:
